@@ -24,7 +24,7 @@ func registerProps() {
 			"sampling: a clean batch is evidence, not proof"},
 	}
 	props["C14"] = &propDef{
-		id: "C14", salt: 14, gen: gen.C14, quick: 400, thorough: 6000, streams: 4,
+		id: "C14", salt: 14, gen: gen.C14, quick: 700, thorough: 6000, streams: 4,
 		rule: "one evaluation = one history of 0-8 fix-ups (1-6 segments each: add future block / add before existing records / add inside a festival / replace flag, name or target / remove / remove absent; optional extended names list) and recovered malformed queries, run in a fresh process against the real HolidayUtil and calendar packages; " +
 			"after step 0 and after every step the whole table is compared with a day->record reference model through every view (by day incl. all three APIs, by month, by year, by target incl. absent targets) plus 24 sampled workday walks (|n|<=400) and pay-rate lookups per step. " +
 			"Non-trivial: every run (step 0 alone checks all views of the shipped table). Distinct: by hash of the resolved history and the sampling seed.",
